@@ -377,6 +377,17 @@ func (g *gen) scenario(kind string) *scenario {
 			}
 			sc.Jobs = append(sc.Jobs, job{Kind: "eval", P: p})
 		}
+	case "concurrent-del":
+		// some jobs delete setup variables (delLocalVarOp writes the slot slice of the
+		// global namespace), the others declare new names (nsOp.prepare copies it)
+		sc.Setup = append(sc.Setup, stmt{K: "decl", X: 4, V: g.val()}, stmt{K: "decl", X: 5, V: g.val()})
+		for i := 0; i < 6; i++ {
+			if i%2 == 0 {
+				sc.Jobs = append(sc.Jobs, job{Kind: "eval", P: []stmt{{K: "del", X: 1 + i/2}}})
+			} else {
+				sc.Jobs = append(sc.Jobs, job{Kind: "eval", P: g.private(i, 1+r.Intn(2))})
+			}
+		}
 	case "foreign-decl":
 		// job 0 declares a variable whose initial value takes a while to compute;
 		// job 1 (re-submitted until it compiles) reads or assigns it
@@ -417,11 +428,13 @@ func classify(sc *scenario, kind string) string {
 			}
 		}
 	}
-	fileUse, foreign := false, false
+	fileUse, foreign, del := false, false, false
 	for i, j := range sc.Jobs {
 		own := map[int]bool{}
 		for _, s := range j.P {
 			switch s.K {
+			case "del":
+				del = true
 			case "use":
 				if !pre[s.M] {
 					fileUse = true
@@ -444,6 +457,8 @@ func classify(sc *scenario, kind string) string {
 		return "concurrent-use-file-modules"
 	case foreign:
 		return "access-to-variable-under-declaration"
+	case del:
+		return "concurrent-del"
 	}
 	return kind
 }
@@ -594,7 +609,7 @@ func run(c *reg.Ctx) {
 		idx++
 		class := classify(sc, kind)
 		d := plain
-		if class == "concurrent-use-file-modules" || class == "access-to-variable-under-declaration" {
+		if class == "concurrent-use-file-modules" || class == "access-to-variable-under-declaration" || class == "concurrent-del" {
 			d = risky
 		}
 		c.Count(fmt.Sprintf("%s/jobs=%d", kind, len(sc.Jobs)))
@@ -630,6 +645,12 @@ func run(c *reg.Ctx) {
 			c.Emit(reg.Case{Direct: direct, Desc: ds, Key: key, Class: class, Nontrivial: true})
 			return
 		}
+		if class == "concurrent-del" {
+			// `del` is outside the modelled language: these scenarios are only
+			// sampled (fatal error, exception, race report); no serial-outcome judgement
+			c.Emit(reg.Case{Desc: ds, Key: key, Class: class, Nontrivial: true})
+			return
+		}
 		setup := coqProg(sc.Setup)
 		pre := []string{N(modStr), N(modMath)}
 		for _, m := range sc.Preload {
@@ -659,6 +680,13 @@ func run(c *reg.Ctx) {
 	}
 	for i := 0; i < 6; i++ {
 		one("foreign-decl")
+	}
+	dels := 3
+	if c.Tier == "thorough" {
+		dels = 20
+	}
+	for i := 0; i < dels; i++ {
+		one("concurrent-del")
 	}
 	kinds := []string{"decl-distinct", "decl-same", "shared-rw", "use-loaded", "decl-same", "shared-rw",
 		"decl-distinct", "use-file-same", "use-file-different"}
